@@ -272,7 +272,12 @@ func c03Mutations() []c03mut {
 			bal := h.Balance(b.Address, b.TokenStandard)
 			opts := []*big.Int{big.NewInt(0), big.NewInt(1), new(big.Int).Set(bal), new(big.Int).Add(bal, big.NewInt(1)),
 				new(big.Int).Sub(p255, big.NewInt(1)), new(big.Int).Set(p255), new(big.Int).Lsh(big.NewInt(1), 256),
-				new(big.Int).Add(new(big.Int).Lsh(big.NewInt(1), 256), big.NewInt(1))}
+				new(big.Int).Add(new(big.Int).Lsh(big.NewInt(1), 256), big.NewInt(1)),
+				// negative amounts exist only in the JSON form of a block (same magnitude = same hash and signature)
+				big.NewInt(-1), new(big.Int).Neg(bal)}
+			if b.Amount != nil && b.Amount.Sign() > 0 {
+				opts = append(opts, new(big.Int).Neg(b.Amount), new(big.Int).Neg(b.Amount))
+			}
 			b.Amount = opts[c.Pick("m.amt", len(opts))]
 			return true
 		}},
@@ -490,10 +495,17 @@ func TestC03(t *testing.T) {
 					}
 					mode := c.Weighted("repair", 1, 2, 6, 2)
 					rep := repair(c, h, cand, mode)
+					// the route the candidate takes into the node: the peer wire format, or the JSON-RPC
+					// publication call (JSON text can say things RLP cannot, e.g. a signed amount)
 					wire, err := sim.WireBlocks([]*nom.AccountBlock{cand})
-					if err != nil {
-						c.R.Count("candidates_not_encodable", 1)
-						continue
+					if err != nil || c.Weighted("route", 3, 1) == 1 {
+						jb, jerr := sim.ViaPublishJSON(h.A, cand)
+						if jerr != nil {
+							c.R.Count("candidates_not_encodable", 1)
+							continue
+						}
+						wire = []*nom.AccountBlock{jb}
+						name += "/json-rpc"
 					}
 					offered++
 					_, aerr := h.A.Sup.ApplyBlock(wire[0])
